@@ -1,12 +1,13 @@
 """C01 -- the format-preserving parser is lossless: parse then dump reproduces the input."""
 import ast
+import itertools
 
 from .. import rx, pieces, paths, normalize, strlang
 from ..core import AnalysisError, norm, walk_no_nested
 
 META = {
     'design_ref': 'DESIGN.md §5 C01',
-    'technique': 'conservation ("piece flow") analyses: character positions of the current line through every path of the tokenizer loop (regex groups as consecutive ranges, verified to tile the match on the marked automaton of _RE_FIELD_LINE), stream positions through the re-grouping generators (BufferingIterator API and itertools.groupby modelled) and through iter_tokens; regular-language decisions for the whitespace look-ahead (predicate languages per input mode, token invariant extracted from the paths of _verify_token_text) and for the input-mode selection; paragraph iter_parts interpreted on symbolic heaps; token constructors and their validators interpreted on symbolic texts with automatic case refinement (every text a tokenizer can hand them); from_kvpairs interpreted on case-insensitive names',
+    'technique': 'conservation analyses: one iteration of the tokenizer loop interpreted on symbolic strings (sa.heap + sa.symstr with automatic case refinement; the field regex's groups, their feasible participation patterns and their tiling of the match taken from the marked automaton of _RE_FIELD_LINE) -- the yielded token texts concatenate to the line; "piece flow" over stream positions through the re-grouping generators (BufferingIterator API and itertools.groupby modelled) and through iter_tokens; regular-language decisions for the whitespace look-ahead (predicate languages per input mode, token invariant extracted from the paths of _verify_token_text) and for the input-mode selection; paragraph iter_parts interpreted on symbolic heaps; token constructors and their validators interpreted on symbolic texts with automatic case refinement (every text a tokenizer can hand them); from_kvpairs interpreted on case-insensitive names',
     'level_text': 'Static decision on every path: each character of a line is emitted in exactly one token and in order (error and comment '
                   'lines whole), each token/element of the stream is yielded exactly once and in order by the grouping stages (including '
                   'end-of-stream flushes), each element enumerates the parts it stores in constructor order and dump concatenates token '
@@ -74,7 +75,24 @@ def r1_r2_field_regex(rep, src):
             only = rx.regex_lang(rx.literal(cand), 0, 'fullmatch', alpha=alpha)
             if Rm.intersect(part).minus(rx.group_content(alpha, markers, g, only)).is_empty():
                 const = cand
-        info[g] = dict(name=names.get(g, str(g)), optional=optional, const=const)
+        eps = rx.regex_lang('', 0, 'fullmatch', alpha=alpha)
+        nonempty = Rm.intersect(part).intersect(rx.group_content(alpha, markers, g, eps)).is_empty()
+        ends_nl = rx.regex_lang(r'(?s:.*)\n', 0, 'fullmatch', alpha=alpha)
+        may_nl = not Rm.intersect(part).intersect(rx.group_content(alpha, markers, g, ends_nl)).is_empty()
+        info[g] = dict(name=names.get(g, str(g)), optional=optional, const=const, nonempty=nonempty, may_nl=may_nl)
+    # which sets of groups can take part in one match
+    opt = [g for g in groups if info[g]['optional']]
+    patterns = []
+    for k in range(len(opt) + 1):
+        for pres in itertools.combinations(opt, k):
+            lang = Rm
+            for g in opt:
+                part = rx.has_group(alpha, markers, g)
+                lang = lang.intersect(part) if g in pres else lang.minus(part)
+            if not lang.is_empty():
+                patterns.append(frozenset(pres))
+    for g in groups:
+        info[g]['patterns'] = patterns
     return info
 
 
@@ -94,9 +112,16 @@ def const_tokens(src):
 
 
 def r3_tokenizer(rep, src, ginfo):
+    """one iteration of the line loop interpreted on a symbolic line (sa.heap + sa.symstr, helpers followed): the texts of the
+    tokens it yields, concatenated, must be the line -- with "\\n" appended in the input mode without line ends.  Two shapes of
+    line cover everything: a line the field regex does not match (any text: comment, blank, continuation, invalid) and a line
+    it matches, given by its groups (every combination of participating optional groups; the groups tile the match: C01.R2).
+    Decisions that depend on the text split the case on its language."""
+    from .. import heap as H, symstr
+    from ..symstr import SStr
     f = src.func(TK + ':tokenize_deb822_file')
     rep.saw_func(f)
-    loops = [s for s in f.node.body if isinstance(s, ast.For)]
+    loops = [s_ for s_ in f.node.body if isinstance(s_, ast.For)]
     if len(loops) != 1:
         raise AnalysisError('%s: line loop not found' % f.site)
     loop = loops[0]
@@ -105,80 +130,205 @@ def r3_tokenizer(rep, src, ginfo):
         rep.fail('C01.R2', TK, 'constant tokens', 'Deb822NewlineAfterValueToken / Deb822FieldSeparatorToken no longer carry "\\n" / ":" (found %r)'
                  % {k: ct.get(k) for k in ('Deb822NewlineAfterValueToken', 'Deb822FieldSeparatorToken')})
         return
-    pieces.CONST_TOKENS.clear()
-    pieces.CONST_TOKENS.update({k: v for k, v in ct.items() if k in ('Deb822NewlineAfterValueToken', 'Deb822FieldSeparatorToken')})
-    order = sorted(ginfo)
-    pieces.GROUPS[:] = [ginfo[g]['name'] for g in order]
-    pieces.GROUP_CONST.clear()
-    pieces.GROUP_CONST.update({i: ginfo[g]['const'] for i, g in enumerate(order) if ginfo[g]['const'] is not None})
-    pieces.GROUP_OPTIONAL.clear()
-    pieces.GROUP_OPTIONAL.update({i for i, g in enumerate(order) if ginfo[g]['optional']})
     roles = _roles(f, loop)
     if len(roles['carried']) != 1:
         raise AnalysisError('%s: expected one piece of state carried from line to line, found %r' % (f.site, roles['carried']))
+    mod = src.mod(TK)
+    pre = f.node.body[:f.node.body.index(loop)]
+    dicts = [st.targets[0].id for st in pre if isinstance(st, (ast.Assign,)) and len(st.targets) == 1 and isinstance(st.targets[0], ast.Name)
+             and isinstance(st.value, ast.Dict) and not st.value.keys]
+    dicts += [st.target.id for st in pre if isinstance(st, ast.AnnAssign) and isinstance(st.target, ast.Name) and isinstance(st.value, ast.Dict) and not st.value.keys]
+    streams = [st.targets[0].id for st in pre if isinstance(st, ast.Assign) and len(st.targets) == 1 and isinstance(st.targets[0], ast.Name)
+               and isinstance(st.value, ast.Call) and norm(st.value.func) == 'BufferingIterator']
+    streams += [st.target.id for st in pre if isinstance(st, ast.AnnAssign) and isinstance(st.target, ast.Name) and isinstance(st.value, ast.Call)
+                and norm(st.value.func) == 'BufferingIterator']
+    order = sorted(ginfo)
+    gnames = [ginfo[g]['name'] for g in order]
+    NONL = r'[^\n]'
+
+    def interpret(line, groups, mode, carried, cache=None, heap=None, strI=None):
+        """-> ('raise', exc, line) | ('tokens', [token text ...], heap, env)"""
+        def field_match(it, args, kw):
+            if groups is None:
+                return None
+            return it.h.alloc('Match', {'groups': tuple(groups)})
+
+        def group(it, args, kw):
+            g = it.h.objs[args[0].name]['groups']
+
+            def one(k):
+                if isinstance(k, int):
+                    return g[k - 1] if k else line
+                if k in gnames:
+                    return g[gnames.index(k)]
+                raise H.Raised('IndexError', it.h.version, 0)
+            ks = args[1:]
+            return one(ks[0]) if len(ks) == 1 else tuple(one(k) for k in ks)
+
+        def groupdict(it, args, kw):
+            g = it.h.objs[args[0].name]['groups']
+            d = it.h.new_dict()
+            for n_, v_ in zip(gnames, g):
+                if isinstance(n_, str):
+                    it.h.dict_set(d, n_, v_)
+            return d
+        hooks = {'_strI': lambda it, a, k: a[0], 'sys.intern': lambda it, a, k: a[0], 'regex:_RE_FIELD_LINE.match': field_match,
+                 '.groups': lambda it, a, k: tuple(it.h.objs[a[0].name]['groups']), '.group': group, '.groupdict': groupdict,
+                 '.peek': lambda it, a, k: None, '.peek_at': lambda it, a, k: None, '.takewhile': lambda it, a, k: it.h.new_list([]),
+                 '.peek_many': lambda it, a, k: it.h.new_list([])}
+        if strI is not None:
+            hooks['_strI'] = strI
+        if heap is None:
+            heap = H.Heap(mod, hooks=hooks)
+            heap.symbolic_strings = True
+        else:
+            heap.hooks.update(hooks)
+        it = H.Interp(heap)
+        env = {roles['flag']: mode, roles['carried'][0]: carried, '#yields': []}
+        for st_ in pre:
+            # local helpers of the tokenizer (closures read the variables of this environment when they are called)
+            if isinstance(st_, ast.FunctionDef) or (isinstance(st_, ast.Assign) and isinstance(st_.value, ast.Lambda)):
+                it.exec(st_, env, None)
+        for d_ in dicts:
+            env[d_] = cache if cache is not None else heap.new_dict()
+        for s_ in streams:
+            env[s_] = heap.alloc('Stream', {})
+        for n_ in ast.walk(loop.target):
+            if isinstance(n_, ast.Name):
+                env[n_.id] = line if n_.id == roles['line'] else 1
+        try:
+            it.run(loop.body, env, None)
+        except H.Raised as x:
+            return ('raise', x.exc, x.lineno)
+        texts = []
+        for t in env['#yields']:
+            if not isinstance(t, H.Ref):
+                raise AnalysisError('%s: the loop yields %r, not a token' % (f.site, t))
+            texts.append(it.ev(ast.parse('tok.text', mode='eval').body, {'tok': t}, None))
+        return ('tokens', texts, heap, env)
+
+    def shapes(mode):
+        """(label, atoms, builder -> (line, groups))"""
+        out = []
+        for nl in (('\n', '') if not mode else ('',)):
+            eff = '\n' if mode else nl          # the line end the loop body sees after the no-line-end mode has supplied it
+            out.append(('a line the field regex does not match, %s' % ('with its line end' if nl else 'without line end'),
+                        {'A': NONL + ('*' if nl else '+')}, lambda at, nl=nl: (at['A'] + nl, None)))
+            for pattern in ginfo[order[0]]['patterns']:
+                if True:
+                    present = {i for i, g in enumerate(order) if g in pattern}
+                    parts = []
+                    atoms = {}
+                    for i, g in enumerate(order):
+                        if ginfo[g]['const'] is not None:
+                            parts.append(('lit', ginfo[g]['const']))
+                        elif ginfo[g]['optional'] and i not in present:
+                            parts.append(('none', None))
+                        else:
+                            atoms['G%d' % i] = NONL + ('+' if ginfo[g]['nonempty'] else '*')
+                            parts.append(('atom', 'G%d' % i))
+                    last = max(i for i, p_ in enumerate(parts) if p_[0] != 'none')
+                    if nl and (parts[last][0] == 'lit' or not ginfo[order[last]]['may_nl']):
+                        continue         # the line end cannot be part of this group: no such match
+                    if mode and (parts[last][0] == 'lit' or not ginfo[order[last]]['may_nl']):
+                        continue
+
+                    def build(at, parts=parts, last=last, nl=nl, eff=eff):
+                        groups, line = [], SStr()
+                        for i, (kind, v) in enumerate(parts):
+                            if kind == 'none':
+                                groups.append(None)
+                                continue
+                            txt = SStr([v]) if kind == 'lit' else at[v]
+                            line = line + txt + (nl if i == last else '')
+                            groups.append(txt + eff if i == last else txt)
+                        return line, groups
+                    label = 'a field line with the groups %s, %s' % ([str(gnames[i]) for i, p_ in enumerate(parts) if p_[0] != 'none'], 'with its line end' if nl else 'without line end')
+                    out.append((label, atoms, build))
+        return out
     total = 0
     for mode in (False, True):
-        for cfn in (pieces.NONE, 'set'):
-            A = pieces.An(roles['line'])
-            st = pieces.St()
-            st.env[roles['line']] = pieces.P(pieces.Pos(0), st.L)
-            st.env[roles['carried'][0]] = pieces.NONE if cfn is pieces.NONE else pieces.C('x')
-            st.env[roles['flag']] = mode
-            st.truth[roles['flag']] = mode
+        for carried in (None, H.Key('earlier-field', 'Earlier-Field')):
             what = 'every character of a line is emitted once, in order (%s input, %s)' % ('no-newline' if mode else 'newline-terminated',
-                                                                                           'inside a field' if cfn != pieces.NONE else 'outside a field')
-            try:
-                outs = A.run(loop.body, [st])
-            except pieces.Violation as v:
-                rep.fail('C01.R3', f.site, what, str(v), where=f.where)
-                continue
+                                                                                           'inside a field' if carried is not None else 'outside a field')
             bad = None
             n = 0
-            for o in outs:
-                if o.fin == 'raise':
-                    continue
-                n += 1
-                if not o.env.get('__merged') and not (o.norm(o.done) == o.norm(o.L)):
-                    bad = 'a path ends with the characters [%r, %r) of the line not emitted (tokens: %s)' % (
-                        o.norm(o.done), o.norm(o.L), ', '.join('%s@L%d' % (t.cls, l) for l, t in o.trace))
-                    break
+            for label, atoms, build in shapes(mode):
+                def body(at, build=build):
+                    line, groups = build(at)
+                    r = interpret(line, groups, mode, carried)
+                    if r[0] == 'raise':
+                        return r
+                    out_ = SStr()
+                    for t in r[1]:
+                        out_ = out_ + symstr.lift(t.spelling if isinstance(t, H.Key) else t)
+                    return ('texts', out_, line + '\n' if mode else line)
+                for langs, r in symstr.explore(atoms, body, depth=10):
+                    n += 1
+                    empty = {k for k, l_ in langs.items() if l_.not_subset_witness(symstr.lit_lang('')) is None}
+                    wit = {k: l_.witness() for k, l_ in langs.items()}
+                    if r[0] == 'raise':
+                        # the only line the tokenizer may refuse is the empty one
+                        sample = build(symstr_atoms(langs))[0]
+                        if not sample_is_empty(sample, empty):
+                            bad = bad or '%s (e.g. %r): raises %s at line %d' % (label, wit, r[1], r[2])
+                        continue
+
+                    def nz(s_):
+                        return SStr([p_ for p_ in s_.parts if isinstance(p_, str) or getattr(p_, 'name', None) not in empty])
+                    o, w = nz(r[1]), nz(r[2])
+                    if not o.same(w):
+                        bad = bad or '%s (e.g. %r): the token texts concatenate to %r, the line is %r' % (label, wit, o, w)
             total += n
             if bad:
                 rep.fail('C01.R3', f.site, what, bad, where=f.where)
             elif n == 0:
-                rep.fail('C01.R3', f.site, what, 'no path emits anything', where=f.where)
+                rep.fail('C01.R3', f.site, what, 'no case interpreted', where=f.where)
             else:
-                rep.ok('C01.R3', f.site, what, '%d paths conserve the line' % n)
+                rep.ok('C01.R3', f.site, what, '%d symbolic cases conserve the line' % n)
     rep.analysed['paths'] += total
-    # the field-name memo: a hit must be text-equal to the looked-up name.  The piece analysis assumes
-    # `cache.get(k)` is None or text-equal to k; that holds only if the single store is cache[k] = <text-preserving>(k)
-    # with the *case-sensitive* lookup key itself as dictionary key.
-    gets = [c for c in ast.walk(loop) if isinstance(c, ast.Call) and isinstance(c.func, ast.Attribute) and c.func.attr == 'get'
-            and isinstance(c.func.value, ast.Name) and 'cache' in c.func.value.id]
-    if gets:
-        cache = gets[0].func.value.id
-        kvar = norm(gets[0].args[0])
-        stores = [s for s in ast.walk(loop) if isinstance(s, ast.Assign) and isinstance(s.targets[0], ast.Subscript) and norm(s.targets[0].value) == cache]
-        ok = len(stores) == 1
-        why = 'the memo has %d stores' % len(stores)
-        if ok:
-            st_ = stores[0]
-            key = norm(st_.targets[0].slice)
-            val = st_.value
-            # value must be a name bound to _strI(kvar) (or that call itself)
-            vtxt = norm(val)
-            bound = [a for a in ast.walk(loop) if isinstance(a, ast.Assign) and norm(a.targets[0]) == vtxt]
-            derived = vtxt in ('_strI(%s)' % kvar,) or any(norm(a.value) == '_strI(%s)' % kvar for a in bound)
-            if key != kvar:
-                ok, why = False, ('the memo is filled under the key `%s` but looked up with `%s`: with a case-insensitive key object a later spelling of the '
-                                  'same field hits the entry of an earlier spelling and the token is emitted with the wrong case' % (key, kvar))
-            elif not derived:
-                ok, why = False, 'the memoised value is not _strI(<looked-up name>)'
-        if ok:
-            rep.ok('C01.R3', f.site, 'field-name memo returns the looked-up text', '%s[%s] = _strI(%s)' % (cache, kvar, kvar))
+    # the field-name memo: after a field has been seen, the same field in another spelling is still emitted in its own spelling
+    # (two iterations on decided lines, case-insensitive keys modelled by the interpreter)
+    if dicts:
+        first, second = 'Depends', 'depends'
+
+        def strI(it, a, k):
+            v = a[0]
+            if isinstance(v, H.Key):
+                return v
+            v = v.concrete() if isinstance(v, SStr) else v
+            return H.Key(v.lower(), v)
+        heap = H.Heap(mod)
+        heap.symbolic_strings = True
+        cache = heap.new_dict()
+        outs = []
+        for name in (first, second):
+            nonlit = [i for i, g in enumerate(order) if ginfo[g]['const'] is None]
+            vals = [name, ' ', 'v', '\n']
+            groups = [ginfo[g]['const'] if ginfo[g]['const'] is not None else (vals[nonlit.index(i)] if nonlit.index(i) < len(vals) else None) for i, g in enumerate(order)]
+            r = interpret(name + ': v\n', groups, False, None, cache=cache, heap=heap, strI=strI)
+            if r[0] == 'raise':
+                outs.append('raises ' + r[1])
+            else:
+                t0 = r[1][0] if r[1] else None
+                outs.append(t0.spelling if isinstance(t0, H.Key) else (t0.concrete() if isinstance(t0, SStr) else t0))
+        if outs == [first, second]:
+            rep.ok('C01.R3', f.site, 'field-name memo returns the looked-up text', 'after %r the field %r is emitted as %r' % (first, second, outs[1]))
         else:
-            rep.fail('C01.R3', f.site, 'field-name memo returns the looked-up text', why, where=f.where)
+            rep.fail('C01.R3', f.site, 'field-name memo returns the looked-up text', 'after a line with the field %r the field name of a line %r is emitted as %r: a later '
+                     'spelling of the same field hits the memo entry of an earlier spelling and the token is emitted with the wrong case' % (first, second + ': v', outs[1:]),
+                     where=f.where)
     return loop
+
+
+def symstr_atoms(langs):
+    from .. import symstr
+    return {k: symstr.atom(k, l_) for k, l_ in langs.items()}
+
+
+def sample_is_empty(line, empty):
+    """the line (a symbolic string) is the empty string in this case: no literal part, every atom confined to ''"""
+    return all((not isinstance(p_, str) or p_ == '') and (isinstance(p_, str) or getattr(p_, 'name', None) in empty) for p_ in line.parts)
 
 
 def _roles(f, loop):
@@ -945,10 +1095,12 @@ def r3b_line_source(rep, src):
 
 def check(src, rep, tier):
     rep.explanation = ('C01: (R1) L_match(_RE_FIELD_LINE) ∩ LINE ⊆ L_fullmatch; (R2) on the marked automaton every character of a matched line '
-                       'lies in exactly one capturing group, groups in index order; (R3) the tokenizer loop body is interpreted over character '
-                       'positions of the line for both input modes and for "inside/outside a field": groups become consecutive ranges, slices '
-                       'shift positions, constant tokens stand for a sliced character only under the guard that proves it; every non-raising '
-                       'path must emit [0, len(line)) exactly once in order; (R4) the three re-grouping generators are interpreted over stream '
+                       'lies in exactly one capturing group, groups in index order; (R3) one iteration of the tokenizer loop is interpreted on a '
+                       'symbolic line (helpers followed, both input modes, inside/outside a field): a line the field regex does not match, '
+                       'and a matched line given by every feasible combination of participating groups; the yielded token texts must '
+                       'concatenate to the line, decisions on the text split the case on its language; the field-name memo is run on two '
+                       'spellings of one name; the local generator that prepares the lines yields them unchanged; '
+                       '(R4) the three re-grouping generators are interpreted over stream '
                        'positions with the BufferingIterator API modelled; (R5) constructor-parameter order = iter_parts order, dump = join of '
                        'all token texts; (R6) whitespace look-ahead merges only newline-terminated lines / supplies the newline; (R8) every token '
                        'constructor is interpreted on the language of the texts a tokenizer can hand it and never raises; (R9) from_kvpairs interpreted on '
